@@ -545,6 +545,26 @@ def builders(repo: Repo, rep: Report) -> None:
     else:
         rep.ok("GEN-2", f"ArrayBuilder2D: {n} proposed updates over 4 boards x 8 option sets x 3 current boards satisfy range/value/symmetry/adjacency", points=n)
         rep.ok("PUR-2", "ArrayBuilder2D.candidates/copy_with_update leave the previous board untouched and share no row with it")
+    # reproducibility: candidate order must not depend on the iteration order of a set of strings (hash salting)
+    rep.rule("RNG-8", "candidate enumeration never iterates over a set holding strings (str hashes are salted per process: the order is not reproducible across runs)")
+    try:
+        cw = ClassWorld([mod])
+        cw.genv["srandom.shuffle"] = lambda xs: None
+        cw.genv["srandom.randint"] = lambda a, b: a
+        cw.genv["srandom.choice"] = lambda xs: xs[0]
+        c = cw.new("Choice", ["..", "^1", "v2", "^1"], "..")
+        cw.method(c, "candidates")("..")
+        cw.method(c, "initial")()
+        ab = cw.new("ArrayBuilder2D", 2, 2, ["..", "^1", "<0"], "..", symmetry=True)
+        cw.method(ab, "candidates")(cw.method(ab, "initial")())
+        if cw.ev.order_events:
+            rep.finding("RNG-8", BUILDER, "Choice.__init__", "set-ordered candidates",
+                        f"candidate values pass through a set of strings ({cw.ev.order_events[0]}...): their order - hence the shuffled sequence and the generated problem - "
+                        "changes between interpreter runs for the same deterministic seed")
+        else:
+            rep.ok("RNG-8", "Choice / ArrayBuilder2D with string values: no iteration over a set of strings")
+    except (Undecided, Raised) as ex:
+        rep.undecide("RNG-8", str(ex))
     # Choice + build_neighbor_generator
     try:
         cw = ClassWorld([mod])
